@@ -697,7 +697,7 @@ class BaseDiscretizer(BaseEstimator, TransformerMixin):
                         summaries += [feature_summary]
 
         # adding nans for quantitative features (when nan has been grouped)
-        for feature in self.quantitative_features:
+        for feature in [feat for feat in self.quantitative_features if feat in requested_features]:
             # initiating feature summary (no value/label)
             feature_summary = {"feature": feature, "dtype": self.input_dtypes[feature]}
             # if there are nans -> if already added it will be dropped afterwards (unique content)
